@@ -237,7 +237,7 @@ func runC17(tier string, seed uint64, out *Out) {
 		batch bool
 	}
 	jobs := []job{{"retryable", false}, {"connErr", false}, {"nsre", false}, {"retryable", true}, {"connErr", true}, {"nsre", true},
-		{"REQ:connErr", false}, {"REQ:connErr", true}, {"REQ:nsre", true},
+		{"REQ:connErr", false}, {"REQ:connErr", true}, {"REQ:nsre", true}, {"REQ:nsre", false},
 		{"BOUNCE:REQ:connErr", false}, {"BOUNCE:REQ:connErr", true}, {"PART:retryable", true}}
 	lines := make([]string, len(jobs))
 	var wg2 sync.WaitGroup
